@@ -8,6 +8,7 @@ mod framing;
 mod targets;
 mod util;
 mod wire;
+mod writing;
 
 use serde_json::{json, Value};
 use util::{arg_flag, arg_val, Rng};
@@ -47,6 +48,7 @@ fn main() {
             println!("{}", json!({"B": buffer_step(), "MAXB": buffer_max()}));
         }
         "framing" => cmd_framing(&args, seed, n, &out, &summary),
+        "writing" => cmd_writing(&args, seed, n, &out, &summary),
         other => {
             eprintln!("unknown subcommand {other:?}");
             std::process::exit(2);
@@ -84,6 +86,9 @@ fn cmd_framing(args: &[String], seed: u64, n: u64, out: &str, summary: &str) {
             let mut rr = r.fork();
             scenarios.push(gen_tiny(&mut rr, format!("t{seed}-{i}"), cancels));
         }
+        if arg_flag(args, "--prod-limit") {
+            gen_prod_limit(&mut scenarios);
+        }
         if arg_flag(args, "--sizes") {
             gen_size_sweep(&mut r, &mut scenarios, arg_flag(args, "--dense"));
         }
@@ -111,5 +116,50 @@ fn cmd_framing(args: &[String], seed: u64, n: u64, out: &str, summary: &str) {
         &json!({"scenarios": stats.scenarios, "frames": stats.frames, "cancels": stats.cancels,
                 "events": lines, "B": buffer_step(), "MAXB": buffer_max(),
                 "samples": scenarios.iter().take(3).map(|s| s.to_json()).collect::<Vec<_>>() }),
+    );
+}
+
+fn cmd_writing(args: &[String], seed: u64, n: u64, out: &str, summary: &str) {
+    use writing::*;
+    let mut r = Rng::new(seed ^ 0x5eed);
+    let mut scenarios: Vec<Scenario> = Vec::new();
+    if let Some(p) = arg_val(args, "--replay") {
+        for v in read_lines(&p) {
+            scenarios.push(Scenario::from_json(&v));
+        }
+    } else {
+        if let Some(p) = arg_val(args, "--behaviours") {
+            for (i, v) in read_lines(&p).iter().enumerate() {
+                scenarios.push(from_model_behaviour(v, format!("m{i}")));
+            }
+        }
+        if let Some(f) = arg_val(args, "--free").and_then(|s| s.parse::<usize>().ok()) {
+            let stride = arg_val(args, "--stride").and_then(|s| s.parse().ok()).unwrap_or(1);
+            gen_free_sweep(&mut scenarios, f, stride);
+        }
+        if arg_flag(args, "--limit") {
+            gen_limit_sweep(&mut scenarios);
+        }
+        for i in 0..n {
+            let mut rr = r.fork();
+            scenarios.push(gen_history(&mut rr, format!("w{seed}-{i}")));
+        }
+    }
+    util::log_open(out);
+    let mut stats = Stats { scenarios: 0, ops: 0, refused: 0, overflow: 0, writes: 0 };
+    let dump = arg_val(args, "--dump-scenarios");
+    let mut dumpw = dump.map(|p| std::io::BufWriter::new(std::fs::File::create(p).unwrap()));
+    for sc in &scenarios {
+        if let Some(w) = dumpw.as_mut() {
+            use std::io::Write;
+            writeln!(w, "{}", sc.to_json()).unwrap();
+        }
+        run(sc, &mut stats);
+    }
+    let lines = util::log_close();
+    util::write_json(
+        summary,
+        &json!({"scenarios": stats.scenarios, "ops": stats.ops, "refused": stats.refused, "overflow": stats.overflow,
+                "writes": stats.writes, "events": lines, "B": buffer_step(), "MAXB": buffer_max()}),
     );
 }
